@@ -98,3 +98,55 @@ func init() {
 		g.raw("/-- store/sqlite.go: comparisons of isAncestor -/\ndef isAncestorCmps : List String := " + leanStrList(cmpFull("store/sqlite.go", "isAncestor")))
 	})
 }
+
+// callsOf lists, in source order, the full argument list of every call to `name` (method or function)
+// inside a function.
+func callsOf(rel, fn, name string) []string {
+	fd := funcDecl(rel, fn)
+	f := load(rel)
+	if fd == nil || f == nil {
+		return nil
+	}
+	var out []string
+	ast.Inspect(fd.Body, func(n ast.Node) bool {
+		ce, ok := n.(*ast.CallExpr)
+		if !ok {
+			return true
+		}
+		match := false
+		switch v := ce.Fun.(type) {
+		case *ast.SelectorExpr:
+			match = v.Sel.Name == name
+		case *ast.Ident:
+			match = v.Name == name
+		}
+		if match {
+			var as []string
+			for _, a := range ce.Args {
+				as = append(as, exprStr(f.fset, a))
+			}
+			out = append(out, strings.Join(as, ", "))
+		}
+		return true
+	})
+	return out
+}
+
+func init() {
+	reg("Rebroadcast", func(g *gen) {
+		for _, fn := range []string{"processPointsUpstream", "processEdgePointsUpstream"} {
+			g.raw("def " + fn + "Subject : List String := " + leanStrList(callsOf("store/store.go", fn, "Sprintf")))
+			g.raw("def " + fn + "Up : List String := " + leanStrList(callsOf("store/store.go", fn, "up")))
+			g.raw("def " + fn + "Rec : List String := " + leanStrList(callsOf("store/store.go", fn, fn)))
+			g.raw("def " + fn + "Send : List String := " + leanStrList(callsOf("store/store.go", fn, "SendPoints")))
+			g.raw("def " + fn + "Cmps : List String := " + leanStrList(cmpFull("store/store.go", fn)))
+			g.raw("def " + fn + "Ranges : List String := " + leanStrList(rangeExprs("store/store.go", fn)))
+		}
+		g.raw("def upQuery : String := " + leanStr(firstStringArg("store/sqlite.go", "up")))
+		g.raw("def upCmps : List String := " + leanStrList(cmpFull("store/sqlite.go", "up")))
+		g.raw("def upMod : List String := " + leanStrList(callsOf("store/sqlite.go", "up", "Mod")))
+		g.raw("def upFind : List String := " + leanStrList(callsOf("store/sqlite.go", "up", "Find")))
+		g.raw("def handleNodePointsUp : List String := " + leanStrList(callsOf("store/store.go", "handleNodePoints", "processPointsUpstream")))
+		g.raw("def handleEdgePointsUp : List String := " + leanStrList(callsOf("store/store.go", "handleEdgePoints", "processEdgePointsUpstream")))
+	})
+}
